@@ -1,7 +1,7 @@
 SPECIFICATION Spec
 CONSTANTS
   MaxSigs = 4
-  Tools = {"none", "key", "eth", "manual_ok", "manual_bad"}
+  Tools = {"none", "key", "eth", "manual_ok", "manual_bad", "manual_spell"}
 INVARIANT RefusesMalformed
 INVARIANT AcceptsWellFormed
 INVARIANT MessageText
@@ -11,6 +11,7 @@ INVARIANT SignatureVerifies
 INVARIANT RoundTripP
 INVARIANT ExchangeShape
 INVARIANT AuthorizedIff
+INVARIANT DocumentedFailure
 INVARIANT AuthorizedIffK
 INVARIANT Holds
 PROPERTY StopsAtSuccess
